@@ -28,6 +28,7 @@ Record dimcase := {
   dc_name : string;
   dc_table : list (string * nat);
   dc_default : nat;
+  dc_flag : option string;   (* value given to flag.Set(name, _) after WithDimension, if any *)
 }.
 
 Inductive load_obs := LOk | LErr | LBuildPanic | LPanic.
@@ -71,7 +72,8 @@ Fixpoint build_dims (env : list (string * string)) (ds : list dimcase) : res (li
       | Err => Err
       | Ok v => match build_dims env rest with
                 | Err => Err
-                | Ok r => Ok (mk_dim (dc_table d) v :: r)
+                | Ok r => Ok (mk_dim (dc_table d)
+                                     (apply_flag (fun k => assoc k (dc_table d)) (dc_flag d) v) :: r)
                 end
       end
   end.
@@ -128,10 +130,18 @@ Definition agrees (load : list dim -> tree -> res (list (string * tree)))
       end
   end.
 
+(* a flag value outside the enum is not "an assignment of values to the dimensions" *)
+Definition flags_parse (ds : list dimcase) : bool :=
+  forallb (fun d => match dc_flag d with
+                    | None => true
+                    | Some s => match assoc s (dc_table d) with Some _ => true | None => false end
+                    end) ds.
+
 Definition in_domain (c : c03_case) : bool :=
   match build_dims (cc_env c) (cc_dims c) with
   | Err => false
   | Ok dims =>
+      flags_parse (cc_dims c) &&
       wfb dims None (cc_doc c) &&
       match cc_doc c with
       | Mp _ => match resolve_spec dims (cc_doc c) with Ok (Mp _) | Err => true | _ => false end
